@@ -332,6 +332,22 @@ def gen_c11(tier, rng):
         d = D([O("t", "tog", "t", env="NV_T", dflt=5)], allowed=0)
         out.append(pcase("C11", d, {"NV_T": w}, []))
         out.append(pcase("C11", d, {"NV_T": w}, ["-t"]))
+    # several vocabulary words in one value (a value is one word, not a list of words): every ordered pair with a
+    # blank in between, other separators and longer runs sampled
+    V = TRUTHY + FALSY
+    for a in V:
+        for b in V:
+            out.append(ecase(a + " " + b))
+    for _ in range(4000 if big else 600):
+        sep = rng.choice([" ", ",", ";", "|", "\t", "\n", "  ", "="])
+        ws = [rng.choice(V) for _ in range(2 + rng.below(3))]
+        if rng.chance(1, 2):
+            i = rng.below(len(V) - 3)
+            ws = V[i:i + 2 + rng.below(3)]
+        w = sep.join(ws)
+        out.append(ecase(w))
+        if rng.chance(1, 4):
+            out.append(pcase("C11", D([O("t", "tog", "t", env="NV_T", dflt=5)], allowed=0), {"NV_T": w}, []))
     for _ in range(3000 if big else 300):
         out.append(ecase("".join(chr(rng.choice([78, 79, 110, 111, 70, 102, 89, 121, 49, 48, 32 + rng.below(90)]))
                                  for _ in range(rng.below(5)))))
@@ -502,8 +518,8 @@ C04 = Prop("C04", "opt", ["NitroVerif.Props.C04"], gen_c04,
            technique="Lean 4 proof (totality + boundary via parse_factor) + differential correspondence under sanitizers", **COMMON)
 
 C11 = Prop("C11", "opt", ["NitroVerif.Props.C11"], gen_c11,
-           rule="the 30 documented words, case variants, one-edit near misses and random strings through parse_env_value and "
-                "through a full parse; all vectors of length <=3 over 18 occurrence patterns (long, short, repeated letters, "
+           rule="the 30 documented words, case variants, one-edit near misses, every ordered pair of vocabulary words joined by a blank, sampled runs of 2-4 words with "
+                "eight separators, and random strings through parse_env_value and through a full parse; all vectors of length <=3 over 18 occurrence patterns (long, short, repeated letters, "
                 "bundles with other toggles, --no- forms, other arguments in between) x environments. Non-trivial: as C01, every "
                 "word case. " \
                 "A sample of the family is repeated on a parser that was move-constructed (PM1) / move-assigned over a configured parser (PM2) after its declaration; each plain parse is repeated through parse(vector<user_input>) on a parser of its own; 600 (thorough: 2400) two-parse histories of family members on one parser object (H, and HM with the parser moved in between), plus 'defaults, then the option in each spelling, then defaults again' on every template.",
@@ -573,7 +589,7 @@ def d_alphabet():
             a.append("sh:%d:%s" % (i, hexs(s)))
         for e in ("NVD_E1", "NVD_E2"):
             a.append("en:%d:%s" % (i, hexs(e)))
-    a += ["mv:0:%s" % hexs("M"), "mv:0:%s" % hexs(""), "move", "grp:1"]
+    a += ["mv:0:%s" % hexs("M"), "mv:0:%s" % hexs(""), "move", "movea", "grp:1"]
     return a
 
 
@@ -611,7 +627,7 @@ def gen_c13(tier, rng):
             elif r < 75:
                 ops.append("mv:%d:%s" % (rng.below(nobj + 1), hexs(rng.choice(["M", ""]))))
             elif r < 85:
-                ops.append("move")
+                ops.append(rng.choice(["move", "movea"]))
             elif r < 90:
                 ops.append("grp:%d" % rng.below(3))
             else:
@@ -622,9 +638,9 @@ def gen_c13(tier, rng):
 
 
 C13 = Prop("C13", "opt", ["NitroVerif.Props.C13"], gen_c13,
-           rule="all declaration histories of depth <=3 over a 30-call alphabet (option/multi_option/toggle on the default "
+           rule="all declaration histories of depth <=3 over a 31-call alphabet (option/multi_option/toggle on the default "
                 "group and a named group with 2 names, short_name with 4 values incl. empty and two characters, env, metavar "
-                "incl. empty, moving the parser object, requesting a group), each followed by a probe parse; seeded random "
+                "incl. empty, moving the parser object by move construction and by move assignment over another parser, requesting a group), each followed by a probe parse; seeded random "
                 "histories up to 20 calls over 4 names (incl. no-a) and 3 groups with interleaved moves and probes; built with "
                 "ASan detect_stack_use_after_return (the moved parser is heap-allocated, a dangling back-reference is a "
                 "use-after-free). Compared: exception type of every call, identity of the returned object (creation index), "
